@@ -56,6 +56,8 @@ class Gen:
         whole = all(float(v).is_integer() and abs(v) < 2 ** 31 for v in vals)
         f32 = all(struct.unpack("f", struct.pack("f", v))[0] == v for v in vals)
         choices = ["npscalar"]
+        if not isinstance(op[key], list):
+            choices += ["0d"]
         if whole:
             choices += ["int", "int64"]
             if all(0 <= v < 256 for v in vals):
@@ -87,7 +89,7 @@ class Gen:
         r = rng.random()
         if r < 0.2:
             w = rng.choice(ids)
-            return w, [w], {}
+            return w, [w], ({"wstr_np": True} if rng.random() < 0.25 else {})
         if r < 0.35 and allow_2d and geo.idrows * geo.cols > 1:
             if rng.random() < 0.25 and geo.idrows * geo.cols <= 96:
                 # the whole labware (`plate.wells`, possibly reversed: `plate.wells[::-1, :]`)
